@@ -52,6 +52,11 @@ var props = map[string]propSpec{
 		Rule: "rapid draws Decimals with nil/short/reusable buffers for Decompose->Compose round trips, and arbitrary parts (form 0..255, sign, coefficient bytes c*10^z+small up to ~400 bytes with leading zero bytes, int32 exponents incl. extremes and compensation windows); oracle: representable iff the exact value has a format member (RoundX toward zero == away), then Compose must return exactly it, otherwise an error. Non-trivial = coefficient longer than 16 bytes or exponent outside -6176..6111 (parts), coefficient above 2^64 (round trip); distinct = distinct arguments.",
 		Assumptions: commonAssumptions,
 	},
+	"C11": {
+		QuickShards: 8, ThoroughShards: 16,
+		Rule: "rapid draws New(sig, exp) with sig over int64 (bounds, powers of ten, digit patterns, uniform) and exp over -7000..7000, windows around -6176-25..-6176+20 and 6111-5..6111+45, +-13000 and int extremes; Ldexp(frac, exp) with finite frac over the full range and exp steered so that frac's exponent + exp lands in the subnormal/overflow windows even when exp alone is out of range; Frexp over all patterns. Oracle: exact sig*10^exp / frac*10^exp rounded nearest-even with the 1e-6177 flush rule; Frexp: 0.1<=|frac|<1, frac*10^e == d exactly, Ldexp(Frexp(d)) has d's value. Non-trivial = result clamped/rounded/compensated (New, Ldexp) or finite non-zero argument (Frexp); distinct = distinct arguments.",
+		Assumptions: commonAssumptions,
+	},
 	"C01": {
 		QuickShards: 8, ThoroughShards: 16,
 		Rule: "rapid draws operand pairs (independent; exponent gap -45..45; tie/near-tie constructor at the 34/35-digit boundary; near-cancellation across cohorts; swallowed operand up to gap 12287; zeros; overflow edge) and add/sub; every pair is evaluated under all 6 modes and under all 6 DefaultRoundingMode values against the exact integer sum rounded by ref.RoundX. Non-trivial = the exact sum is not representable (rounding decides) or the operands cancel exactly; distinct = distinct (x bits, y bits, op).",
